@@ -326,7 +326,7 @@ class Impl:
         return pairs, raws
 
     def run(self, src: str, dt: str, datas: list[dict[str, Any]],
-            splits: dict[int, int] | None = None) -> dict[str, Any] | None:
+            splits: dict[int, int] | None = None, limits: bool = True) -> dict[str, Any] | None:
         """Parse once with default_trim dt; render each data set with
         suppression on and off.  None = LiquidSyntaxError at parse time.
         With `splits` ({k: offset}) the k-th content token of the lexer's output
@@ -355,12 +355,13 @@ class Impl:
                 # the same render with every resource limit set (far above what
                 # the program needs): limits are a configuration bit that must
                 # not change a single character
-                set_limits(env, True)
-                try:
-                    alt.append(("render, limits set", t.render(**d)))
-                    alt.append(("render_async, limits set", run_coro(t.render_async(**d))))
-                finally:
-                    set_limits(env, False)
+                if limits:
+                    set_limits(env, True)
+                    try:
+                        alt.append(("render, limits set", t.render(**d)))
+                        alt.append(("render_async, limits set", run_coro(t.render_async(**d))))
+                    finally:
+                        set_limits(env, False)
                 others[(di, sup)] = alt
         env.suppress_blank_control_flow_blocks = True
         return {"pairs": pairs, "raws": raws, "outs": outs, "others": others}
@@ -1074,11 +1075,14 @@ def main(chk: C.Check, build: C.Build) -> None:
             nums.append(num)
             srcs[num] = src
             no_trim_markers = all(m in ("", "+") for m in ms)
+            # limits on/off is a configuration bit of every assignment; only the
+            # 4096-assignment sweeps of the thorough tier take it on a seeded quarter
+            with_limits = len(msets) < 4096 or r.random() < 0.25
             # the three long-lived environments take turns in a different order
             # for every assignment: no render may depend on what another
             # environment rendered before
             for dt in r.sample(DTS, 3):
-                res = impl.run(src, dt, datas, splits if do_split else None)
+                res = impl.run(src, dt, datas, splits if do_split else None, limits=with_limits)
                 stats["parses"] += 1
                 if res is None:
                     stats["syntax_errors"] += 1
